@@ -148,7 +148,12 @@ class Tmatrix(ScatteringTheory):
     def _run_tmat(self, args):
         med_wavelen = args[2]
         nang = args[-1]
-        s11, s12, s21, s22 = ampld(*args)
+        s11, s12, s21, s22, ierr = ampld(*args)
+        if ierr:
+            reasons = {1: "particle too large", 2: "no convergence",
+                       3: "no convergence", 4: "angle out of range",
+                       5: "particle too large or index not finite"}
+            raise TmatrixFailure(reason=reasons.get(ierr, "code %d" % ierr))
         for s in [s11, s12, s21, s22]:
             s *= (-2j*np.pi/med_wavelen)
         scat_matr = np.array([[s11, s12], [s21, s22]]).transpose()
